@@ -9,6 +9,8 @@ use renoir::operator::StreamElement;
 use renoir::verif::{ops, ScriptOp};
 
 fn gen(rng: &mut Rng, _i: usize) -> Case {
+    // per-component stream: components run with the same --seed must not draw identical sequences
+    let rng = &mut Rng::new(rng.next() ^ 0x4BF0_1D00_0000_0002);
     let name = *rng.pick(FNS);
     // key distribution: single key, skewed, few keys, many keys
     let dist = rng.below(4);
